@@ -86,7 +86,7 @@ fn resp(an: u16, ns: u16, ar: u16) -> Asm {
 // ---------------------------------------------------------------------------
 // boundary families
 
-pub const N_BOUNDARY: usize = 49;
+pub const N_BOUNDARY: usize = 55;
 
 /// Build boundary case number `k` (0..N_BOUNDARY), side `legal`.
 pub fn boundary(rng: &mut Rng, k: usize, legal: bool) -> Input {
@@ -592,6 +592,93 @@ pub fn boundary(rng: &mut Rng, k: usize, legal: bool) -> Input {
                 a.u16(12).u16(*rng.pick(&[0xfffcu16, 0xfffd, 0xffff, 0xfffb])).raw(&[0, 0, 0, 0]);
             }
             inp(a.done(), "opt-option-length-wrap", legal)
+        }
+        49 => {
+            // a compressed owner name starting just above offset 65536 (offsets that wrap to small numbers in 16
+            // bits); the illegal side points forward instead
+            let mut a = resp(0, 0, 0);
+            let at = *rng.pick(&[65536usize, 65537, 65540, 65548, 65549, 65600, 70000]);
+            let mut n = 0u16;
+            while a.pos() + 2 + 10 + 60000 < at {
+                a.ptr(12).rrfix(T_TXT, 1, 60000).raw(&vec![0x3fu8; 60000]);
+                n += 1;
+            }
+            let left = at - a.pos() - 12;
+            a.ptr(12).rrfix(T_TXT, 1, left as u16).raw(&vec![0x3fu8; left]);
+            n += 1;
+            assert_eq!(a.pos(), at);
+            if legal {
+                a.ptr(12);
+            } else {
+                a.ptr(0x3fff);
+            }
+            a.rrfix(T_A, 1, 4).raw(&[1, 2, 3, 4]);
+            n += 1;
+            a.b[6..8].copy_from_slice(&n.to_be_bytes());
+            inp(a.done(), "pointer-name-beyond-65536", legal)
+        }
+        50 => {
+            // DNAME target: a length byte of 0xc0..0xff is a pointer (refused in DNAME data) however many bytes
+            // follow it; the legal side has a 63-byte label there
+            let mut a = resp(1, 0, 0);
+            let l = if legal { 63usize } else { *rng.pick(&[0xc0usize, 0xc1, 0xd0, 0xff]) };
+            a.ptr(12).rrfix(T_DNAME, 1, (1 + l + 1) as u16);
+            a.b.push(l as u8);
+            a.raw(&vec![b'd'; l]).root();
+            inp(a.done(), "dname-label-63/192+", legal)
+        }
+        51 => {
+            // SOA whose RDLENGTH is tiny (1..21) although two valid names follow
+            let mut a = resp(1, 0, 0);
+            a.ptr(12).rrfix(T_SOA, 1, if legal { 24 } else { *rng.pick(&[1u16, 2, 5, 19, 20, 21]) });
+            a.ptr(12).ptr(12).raw(&[0u8; 20]);
+            if !legal {
+                // keep the packet length consistent with the (lying) RDLENGTH being the only defect
+            }
+            inp(a.done(), "soa-rdlen-tiny", legal)
+        }
+        52 => {
+            // MX: bytes after the exchange name
+            let mut a = resp(1, 0, 0);
+            let extra = if legal { 0 } else { rng.range(1, 9) };
+            a.ptr(12).rrfix(T_MX, 1, (2 + 2 + extra) as u16).u16(10).ptr(12).raw(&vec![0u8; extra]);
+            inp(a.done(), "mx-slack", legal)
+        }
+        53 => {
+            // OPT belongs in the additional section only; and there is at most one
+            if rng.chance(1, 2) {
+                let mut a = if legal { resp(0, 0, 1) } else { resp(0, 1, 0) };
+                a.root().u16(T_OPT).u16(4096).u32(0).u16(0);
+                inp(a.done(), "opt-in-authority", legal)
+            } else {
+                let mut a = resp(0, 0, if legal { 2 } else { 3 });
+                a.root().u16(T_OPT).u16(4096).u32(0).u16(4).u16(10).u16(0);
+                a.ptr(12).rrfix(T_A, 1, 4).raw(&[1, 2, 3, 4]);
+                if !legal {
+                    a.root().u16(T_OPT).u16(1232).u32(0).u16(0);
+                }
+                inp(a.done(), "opt-twice", legal)
+            }
+        }
+        54 => {
+            // a record whose RDLENGTH is within ten bytes of 65535 (header size + length wraps in 16 bits), in the
+            // middle of a packet; the illegal side announces more than is there
+            let mut a = resp(2, 0, 0);
+            let l = *rng.pick(&[65525usize, 65526, 65530, 65534, 65535]);
+            let literal = rng.chance(1, 2);
+            if literal {
+                a.label(b"q").root();
+            } else {
+                a.ptr(12);
+            }
+            a.rrfix(*rng.pick(&[T_TXT, 99, 65280]), 1, l as u16).raw(&vec![0x3fu8; if legal { l } else { l - 1 }]);
+            if literal {
+                a.label(b"q").root();
+            } else {
+                a.ptr(12);
+            }
+            a.rrfix(T_A, 1, 4).raw(&[1, 2, 3, 4]);
+            inp(a.done(), "rdlen-near-65535", legal)
         }
         _ => unreachable!(),
     }
